@@ -1,17 +1,23 @@
 use crate::common::run::Run;
 pub mod c04;
 pub mod c05;
+pub mod c07;
 pub mod c08;
+pub mod c09;
 pub mod c12;
 pub mod c16;
+pub mod c17;
 
 pub fn lookup(id: &str) -> Option<fn(&Run)> {
     Some(match id {
         "C04" => c04::run,
         "C05" => c05::run,
+        "C07" => c07::run,
         "C08" => c08::run,
+        "C09" => c09::run,
         "C12" => c12::run,
         "C16" => c16::run,
+        "C17" => c17::run,
         _ => return None,
     })
 }
